@@ -11,6 +11,12 @@ import itertools
 from collections import deque
 
 
+def clean_key(key):
+    """Stable, single-token form of a violation key."""
+    return (key.replace('\\', '/').replace(' ', '_').replace('\n', '/n')
+            .replace('\r', '/r').replace('\t', '/t'))[:200]
+
+
 class Acc(object):
     def __init__(self):
         self.evals = 0
@@ -28,7 +34,7 @@ class Acc(object):
         self.outcomes[name] = self.outcomes.get(name, 0) + n
 
     def violation(self, key, msg, payload):
-        key = key.replace(' ', '_').replace('\n', '\\n')[:200]
+        key = clean_key(key)
         v = self.violations.get(key)
         if v is None:
             self.violations[key] = {'key': key, 'msg': msg,
